@@ -34,7 +34,7 @@ w("For every property a fresh sub-agent was given only the text of the property 
 w("/repo (nothing from /verif) and asked for two independent changes that break the property, still import, still pass")
 w("the repository suite, and need something specific to manifest. This was done four times: round 1 (`Cxx_A`, `Cxx_B`) and, each")
 w("time every change of the previous round was caught, round 2 (`Cxx_C`, `Cxx_D`), round 3 (`Cxx_E`, `Cxx_F`) and round 4 (`Cxx_G`,")
-w("`Cxx_H`, for the ten properties whose checks had missed most in round 3), whose agents were also told what the earlier rounds")
+w("`Cxx_H`), whose agents were also told what the earlier rounds")
 w("had changed and asked for another site, another mechanism and preferably another clause of the property or another kind of")
 w("trigger (round 4: explicitly not an absolute tolerance, a missing cache invalidation or an array shared with the caller, the")
 w("three families that dominated rounds 2 and 3). Each change was then confirmed by")
